@@ -4,18 +4,19 @@
 # build output afterwards.
 set -u
 id=$1; shift
+V=${VERIF_HOME:-/verif}   # which copy of the machinery judges the change (a frozen snapshot, say)
 S=/verif/seeded/$id
-WT=/tmp/mx-$id
+WT=/tmp/mx${MX_SUFFIX:-}-$id
 git -C /repo worktree prune
 rm -rf "$WT"; git -C /repo worktree add --detach -q "$WT" HEAD || exit 2
 git -C "$WT" apply "$S/patch.diff" || { echo "$id: patch does not apply"; git -C /repo worktree remove --force "$WT"; exit 2; }
-tag=$(VERIF_REPO=$WT /verif/sim/mkvariant.py --tag)
+tag=$(VERIF_REPO=$WT $V/sim/mkvariant.py --tag)
 for p in "$@"; do
   t0=$(date +%s)
-  out=$(cd /verif && VERIF_REPO=$WT VERIF_EVIDENCE_DIR=/tmp/mx-evidence-$id python3 simctl.py check $p --tier ${TIER:-quick} 2>&1); rc=$?
+  out=$(cd $V && VERIF_REPO=$WT VERIF_EVIDENCE_DIR=/tmp/mx${MX_SUFFIX:-}-evidence-$id python3 simctl.py check $p --tier ${TIER:-quick} 2>&1); rc=$?
   t1=$(date +%s)
   v=$(echo "$out" | grep -E '^(VIOLATION|violation|HARNESS-ERROR)' | head -3 | tr '\n' ' ' | cut -c1-600)
   echo "$id check=$p exit=$rc secs=$((t1-t0)) $v"
 done
 git -C /repo worktree remove --force "$WT"
-rm -rf /verif/sim/target/$tag /verif/sim/build/$tag /tmp/mx-evidence-$id
+rm -rf $V/sim/target/$tag $V/sim/build/$tag /tmp/mx${MX_SUFFIX:-}-evidence-$id
